@@ -21,7 +21,20 @@ pub struct C07Scn {
 }
 
 pub fn build(s: &C07Scn) -> WorldSys {
-	let (w, chans) = two_node_world(s.ct, 253);
+	let (w, chans) = if s.name.contains("asymdelay") {
+		// the two peers impose different to_self_delays on each other (200 vs the default 144)
+		let mut a = crate::checks::c01::user_config(s.ct);
+		a.channel_handshake_config.our_to_self_delay = 200;
+		let b = crate::checks::c01::user_config(s.ct);
+		let mut w = crate::world::World::new(vec![a, b], 253);
+		let cid = w.open_channel(0, 1, 1_000_000, 400_000_000);
+		if s.ct != Ct::Static {
+			w.fund_wallets();
+		}
+		(w, vec![cid])
+	} else {
+		two_node_world(s.ct, 253)
+	};
 	let infos = chan_infos(&w, &chans);
 	let rev = RevocationOracle::new(&w, infos.clone());
 	let oc = OnChainOracle::new(&w, infos.clone());
@@ -66,6 +79,24 @@ pub fn scenarios(tier: Tier) -> Vec<C07Scn> {
 				feerate_after_close: None,
 				miner_delay: 0,
 			});
+			// different to_self_delays on the two sides (the closer's own delayed outputs use the delay the
+			// *peer* imposed)
+			if th || ct == Ct::Static {
+				v.push(C07Scn {
+					name: format!("{}-close-by{}-late-preimages-asymdelay", n, closer),
+					ct,
+					ops: vec![
+						send(0, 1, 50_000_000, ClaimPolicy::Hold),
+						send(1, 0, 30_000_000, ClaimPolicy::Hold),
+						Op::ForceClose { node: closer, chan: 0 },
+						Op::ClaimHeld { pay: 0 },
+						Op::ClaimHeld { pay: 1 },
+					],
+					k: if th { 2 } else { 1 },
+					feerate_after_close: None,
+					miner_delay: 0,
+				});
+			}
 			// the recipients learn the preimages only after the close: they must claim on chain before expiry
 			v.push(C07Scn {
 				name: format!("{}-close-by{}-late-preimages", n, closer),
